@@ -1,1 +1,157 @@
+/-
+  Property C04 — EIP-712 digest equals the specification for every type graph and message.
+  Model: FFS.Model.Eip712.encodeTypedDataV4 (pkg/eip712/typed_data_v4.go). Spec: FFS.Spec.Eip712.digest.
+  Proved here, for every document:
+  * `digest_shape`          : a digest that is produced is keccak256(0x19 0x01 ‖ hashStruct(domain) ‖ hashStruct(message))
+                              (the message part omitted exactly when the primary type is EIP712Domain).
+  * `members_by_name`       : the encoding of a struct value depends on the message object only through the values
+                              found under the type's member names — hence
+  * `extra_field_ignored`   : extra message fields do not change the digest, and
+  * `key_order_irrelevant`  : neither does the order of the JSON object keys.
+  PARTIAL: equality with Spec.Eip712.digest for every type graph (dependency closure and its ordering, array and
+  atomic member encodings) is decided by the correspondence run (Tier A: implementation = Spec on generated type
+  graphs incl. cycles, shared and unreferenced types), not proved; signature shape / recovery are C05's theorems.
+-/
 import FFS.Model.Eip712
+namespace FFS.Props.C04
+open FFS FFS.Model.Abi FFS.Model.Eip712
+
+theorem facts : Gen.Eip712Facts.nilMemberGuard = true ∧ Gen.Eip712Facts.useNumber = true := by decide
+
+/-- **Shape of the digest.** -/
+theorem digest_shape (fuel : Nat) (p : TypedData) (d : Bytes) (h : encodeTypedDataV4 fuel p = .ok d) :
+    ∃ dh, hashStruct fuel EIP712Domain (p.domain.getD (.obj [] [])) (effectiveTypes p) = .ok dh ∧
+      ((p.primaryType ≠ EIP712Domain ∧ ∃ sh, hashStruct fuel p.primaryType (p.message.getD .null) (effectiveTypes p) = .ok sh ∧
+          d = keccak ([0x19, 0x01] ++ dh ++ sh)) ∨
+       (p.primaryType = EIP712Domain ∧ d = keccak ([0x19, 0x01] ++ dh))) := by
+  unfold encodeTypedDataV4 at h
+  simp only [] at h
+  unfold effectiveTypes
+  split at h
+  · cases h
+  · split at h
+    · rename_i dh hd
+      refine ⟨dh, hd, ?_⟩
+      split at h
+      · rename_i hne
+        split at h
+        · rename_i sh hs
+          injection h with h
+          exact Or.inl ⟨by simpa using hne, sh, hs, h.symm⟩
+        · cases h
+        · cases h
+      · rename_i heq
+        injection h with h
+        exact Or.inr ⟨by simpa using heq, h.symm⟩
+    · cases h
+    · cases h
+
+/-- **Members are taken by name.** Two message objects that agree on the values found under the member names are
+    encoded identically. -/
+theorem members_by_name (types : TypeSet) : ∀ (ms : List Member) (fuel : Nat) (k1 k2 : List String) (v1 v2 : List Ext),
+    (∀ m ∈ ms, lookupKey k1 v1 m.name = lookupKey k2 v2 m.name) →
+    encodeMembers fuel ms k1 v1 types = encodeMembers fuel ms k2 v2 types := by
+  intro ms
+  induction ms with
+  | nil => intro fuel k1 k2 v1 v2 _; cases fuel <;> simp [encodeMembers]
+  | cons m ms ih =>
+    intro fuel k1 k2 v1 v2 h
+    cases fuel with
+    | zero => simp [encodeMembers]
+    | succ fuel =>
+      rw [encodeMembers, encodeMembers, h m (by simp), ih fuel k1 k2 v1 v2 (fun m' hm' => h m' (by simp [hm']))]
+
+theorem encodeData_by_name (types : TypeSet) (fuel : Nat) (t : String) (k1 k2 : List String) (v1 v2 : List Ext)
+    (h : ∀ name, lookupKey k1 v1 name = lookupKey k2 v2 name) :
+    Model.Eip712.encodeData fuel t (.obj k1 v1) types = Model.Eip712.encodeData fuel t (.obj k2 v2) types := by
+  cases fuel with
+  | zero => simp [Model.Eip712.encodeData]
+  | succ fuel =>
+    rw [Model.Eip712.encodeData, Model.Eip712.encodeData]
+    split
+    · rename_i members enc _
+      simp only []
+      rw [members_by_name types members fuel k1 k2 v1 v2 (fun m _ => h m.name)]
+    · rfl
+    · rfl
+
+theorem lookupKey_append_other (keys : List String) (vals : List Ext) (k : String) (x : Ext) (name : String)
+    (hlen : keys.length = vals.length) (hne : k ≠ name) :
+    lookupKey (keys ++ [k]) (vals ++ [x]) name = lookupKey keys vals name := by
+  unfold lookupKey
+  rw [List.zip_append hlen]
+  simp only [List.zip_cons_cons, List.zip_nil_right, List.reverse_append, List.reverse_cons, List.reverse_nil,
+    List.nil_append, List.singleton_append, List.find?_cons]
+  have : ((k, x).1 == name) = false := by simpa using hne
+  rw [this]
+
+/-- **Extra message fields are ignored**: a field whose name is not a member of the struct type leaves the encoding
+    of the struct unchanged. -/
+theorem extra_field_ignored (types : TypeSet) (fuel : Nat) (t : String) (keys : List String) (vals : List Ext)
+    (k : String) (x : Ext) (hlen : keys.length = vals.length)
+    (hk : ∀ members enc, encodeType t types = .ok (members, enc) → ∀ m ∈ members, m.name ≠ k) :
+    Model.Eip712.encodeData fuel t (.obj (keys ++ [k]) (vals ++ [x])) types =
+      Model.Eip712.encodeData fuel t (.obj keys vals) types := by
+  cases fuel with
+  | zero => simp [Model.Eip712.encodeData]
+  | succ fuel =>
+    rw [Model.Eip712.encodeData, Model.Eip712.encodeData]
+    split
+    · rename_i members enc hte
+      simp only []
+      rw [members_by_name types members fuel (keys ++ [k]) keys (vals ++ [x]) vals
+        (fun m hm => lookupKey_append_other keys vals k x m.name hlen (fun e => hk members enc hte m hm e.symm))]
+    · rfl
+    · rfl
+
+/-- the value found under a name in a JSON object with distinct keys does not depend on the order of the keys -/
+theorem lookupKey_perm (k1 k2 : List String) (v1 v2 : List Ext) (name : String)
+    (hp : (k1.zip v1).Perm (k2.zip v2)) (hnd : ((k1.zip v1).map (·.1)).Nodup) :
+    lookupKey k1 v1 name = lookupKey k2 v2 name := by
+  unfold lookupKey
+  have hnd2 : ((k2.zip v2).map (·.1)).Nodup := (hp.map _).nodup_iff.mp hnd
+  -- with distinct keys, `find?` returns the unique pair with that key, whatever the order
+  have key : ∀ (l : List (String × Ext)), (l.map (·.1)).Nodup → ∀ p, p ∈ l → p.1 = name → l.reverse.find? (·.1 == name) = some p := by
+    intro l hl p hp hpn
+    have hl' : (l.reverse.map (·.1)).Nodup := by
+      rw [List.map_reverse]; exact (List.reverse_perm _).nodup_iff.mpr hl
+    have hp' : p ∈ l.reverse := List.mem_reverse.mpr hp
+    generalize l.reverse = r at hl' hp'
+    induction r with
+    | nil => cases hp'
+    | cons q r ih =>
+      simp only [List.map_cons, List.nodup_cons] at hl'
+      rw [List.find?_cons]
+      rcases List.mem_cons.mp hp' with rfl | hmem
+      · simp [hpn]
+      · have hq : (q.1 == name) = false := by
+          have : q.1 ≠ name := by
+            intro e
+            apply hl'.1
+            rw [e, ← hpn]
+            exact List.mem_map.mpr ⟨p, hmem, rfl⟩
+          simpa using this
+        rw [hq]
+        exact ih hl'.2 hmem
+  cases h1 : (k1.zip v1).reverse.find? (·.1 == name) with
+  | some p =>
+    have hp1 : p ∈ k1.zip v1 := List.mem_reverse.mp (List.mem_of_find?_eq_some h1)
+    have hpn : p.1 = name := by simpa using List.find?_some h1
+    rw [key _ hnd2 p (hp.mem_iff.mp hp1) hpn]
+  | none =>
+    cases h2 : (k2.zip v2).reverse.find? (·.1 == name) with
+    | none => rfl
+    | some p =>
+      have hp2 : p ∈ k2.zip v2 := List.mem_reverse.mp (List.mem_of_find?_eq_some h2)
+      have hpn : p.1 = name := by simpa using List.find?_some h2
+      have := key _ hnd p (hp.mem_iff.mpr hp2) hpn
+      rw [h1] at this
+      cases this
+
+/-- **The order of JSON object keys is irrelevant.** -/
+theorem key_order_irrelevant (types : TypeSet) (fuel : Nat) (t : String) (k1 k2 : List String) (v1 v2 : List Ext)
+    (hp : (k1.zip v1).Perm (k2.zip v2)) (hnd : ((k1.zip v1).map (·.1)).Nodup) :
+    Model.Eip712.encodeData fuel t (.obj k1 v1) types = Model.Eip712.encodeData fuel t (.obj k2 v2) types :=
+  encodeData_by_name types fuel t k1 k2 v1 v2 (fun name => lookupKey_perm k1 k2 v1 v2 name hp hnd)
+
+end FFS.Props.C04
